@@ -18,6 +18,8 @@ def run(ctx):
             jobs.append((exe, ["session", alg, t], be))
             for fam in range(4):
                 jobs.append((exe, ["cpp", fam, alg, t], be))
+                if be in ("asm", "c32") or ctx.thorough:
+                    jobs.append((exe, ["cppseq", fam, alg, 4 if (ctx.thorough and fam != 1) else 3], be))
     jobs.sort(key=lambda j: 0 if (j[1][0] == "cpp" and j[1][1] == 3) else 1)
     common.parallel(lambda j: common.run_harness(ctx, j[0], j[1], label=j[2]), jobs)
     ctx.assumptions += [
@@ -29,6 +31,8 @@ def run(ctx):
                nonce_values_enumerated=ctx.stats.get("evaluations", 0),
                rule="increment: every 16-byte nonce over {00,FF} (quick) / {00,FE,FF} (thorough, 3^16) per byte + every carry-chain length x lead bytes against a 128-bit big-endian reference; "
                     "sessions: every starting carry-chain length 0..16 x every packet history of depth 3 (4) over {encrypt, decrypt, forged decrypt} for 3 incremental ciphers and 12 C++ classes; "
-                    "set_nonce lengths 0..20, set_counter at bit/byte boundaries. states = histories executed on the real objects",
+                    "set_nonce lengths 0..20, set_counter at bit/byte boundaries; C++ objects against an explicit (key, nonce) model: every sequence of 3 (4) member calls over a 14-operation alphabet "
+                    "(3 encrypt forms, valid / forged / short decrypts in pointer and byte_array form, accepted / zero-length / refused keying, set_nonce 16 / 5 bytes, set_counter) for the 12 classes. "
+                    "states = histories executed on the real objects",
                exhaustive=True)
     return LEVEL, cov
